@@ -101,3 +101,29 @@ end RCE.Props.C06
 #print axioms RCE.Props.C06.shift_east_source_eq
 #print axioms RCE.Props.C06.shift_west_source_eq
 #print axioms RCE.Props.C06.trim_edges_source_eq
+
+namespace RCE.Props.C06
+open RCE RCE.Gen
+
+/-- the magic table of a square filled from the TRANSLATED slow walk over the TRANSLATED mask (with the regenerated magic and
+    index width) is the model's table for that square — so `rook_attacks_exact` / `bishop_attacks_exact` speak about tables whose
+    contents come from the source text; what remains hand-modelled on the slider path is `get_blockers_from_index`, the magic
+    index arithmetic, the fill loop and the lookup -/
+theorem rook_fill_source_eq (ha : Tr.rookSlowAvail = true) (hr : Tr.rayInitAvail = true) (hm : Tr.rookMaskInitAvail = true)
+    (sq : Nat) (h : sq < 64) :
+    fillTable rookTableSize (rookBitsAt sq) (rookMagic sq) (Tr.rookMaskInit sq) (Tr.rookSlow sq)
+      = fillTable rookTableSize (rookBitsAt sq) (rookMagic sq) (rookMask sq) (rookSlow sq) := by
+  have h1 : Tr.rookSlow sq = rookSlow sq := funext fun bl => (rook_slow_source_eq ha hr sq h bl).1
+  rw [rook_mask_source_eq hm sq h, h1]
+
+theorem bishop_fill_source_eq (ha : Tr.bishopSlowAvail = true) (hr : Tr.rayInitAvail = true) (hm : Tr.bishopMaskInitAvail = true)
+    (sq : Nat) (h : sq < 64) :
+    fillTable bishopTableSize (bishopBitsAt sq) (bishopMagic sq) (Tr.bishopMaskInit sq) (Tr.bishopSlow sq)
+      = fillTable bishopTableSize (bishopBitsAt sq) (bishopMagic sq) (bishopMask sq) (bishopSlow sq) := by
+  have h1 : Tr.bishopSlow sq = bishopSlow sq := funext fun bl => (bishop_slow_source_eq ha hr sq h bl).1
+  rw [bishop_mask_source_eq hm sq h, h1]
+
+end RCE.Props.C06
+
+#print axioms RCE.Props.C06.rook_fill_source_eq
+#print axioms RCE.Props.C06.bishop_fill_source_eq
